@@ -378,6 +378,7 @@ def native_catalogue():
         "data format row between checks": BASE[:1] + BASE[2:8] + BASE[1:2] + BASE[8:],
         "blank padded cells": [[r[0], " " + r[1] + " "] + r[2:] if r[0] == "f" else r for r in BASE],
         "property name with underscore": [["d", "item_delimiter", ";"] if r[1] == "item delimiter" else r for r in BASE],
+        "empty cells between check description and type": [(r[:2] + ["", ""] + r[2:]) if r[0] == "c" else r for r in BASE],
         "empty mark in lower case": [[c if (i != 3 or r[0] != "f") else c.lower() for i, c in enumerate(r)] for r in BASE],
     }
     for name, rows in rewrites.items():
@@ -441,6 +442,9 @@ def native_catalogue():
         "unique rule with unterminated quote": with_row(7, ["c", "id must be unique", "IsUnique", "'customer_id"]),
         "unique rule with open bracket": with_row(7, ["c", "id must be unique", "IsUnique", "(customer_id"]),
         "distinct count rule with unterminated quote": with_row(8, ["c", "few genders", "DistinctCount", "gender < '2"]),
+        "check with empty rule cell before the rule": with_row(7, ["c", "id must be unique", "IsUnique", "", "customer_id"]),
+        "distinct count with empty rule cell before the rule": with_row(8, ["c", "few genders", "DistinctCount", "", "gender <= 2"]),
+        "check type in the rule column": with_row(7, ["c", "id must be unique", "", "", "IsUnique"]),
         "attribute name as property": insert(1, ["d", "location", "x"]),
         "attribute name as property 2": insert(1, ["d", "is valid", "1"]),
 
@@ -475,6 +479,27 @@ def native_catalogue():
         except Exception as e:  # noqa
             failures.append(dict(key="cid-defect-internal", what="CID %r (%s) raised %s: %s" % (rows, name, type(e).__name__, e),
                                  args=dict(defect=name)))
+    # sound CIDs whose property values carry case that matters: accepted, and the examples are judged by them
+    sound = [
+        [["d", "format", "delimited"], ["d", "Allowed Characters", "\"A\"...\"Z\", 48...57"], ["f", "country_code", "AT", "", "2", "Text", ""]],
+        [["d", "format", "delimited"], ["d", "item delimiter", "X"], ["d", "Encoding", "UTF-8"], ["f", "a", "Abc", "", "", "Text", ""]],
+        [["d", "format", "delimited"], ["f", "kind", "Big", "", "", "Choice", "Big, small"], ["f", "when", "17.03.2021", "", "", "DateTime", "DD.MM.YYYY"]],
+        [["d", "format", "fixed"], ["d", "Line Delimiter", "CRLF"], ["f", "Name", "Ab ", "", "3", "Text", ""], ["c", "Names Differ", "IsUnique", "Name"]],
+    ]
+    for rows in sound:
+        n += 1
+        try:
+            load(rows)
+        except Exception as e:  # noqa
+            failures.append(dict(key="cid-sound-rejected", what="sound CID %r was refused: %s: %s" % (rows, type(e).__name__, e), args=dict(rows=rows)))
+    for rows, line in (([["d", "format", "delimited"], ["d", "allowed characters", "\"A\"...\"Z\""], ["f", "country_code", "at", "", "2", "Text", ""]], 2),):
+        n += 1
+        try:
+            load(rows)
+            failures.append(dict(key="cid-defect-accepted", what="CID %r: the example violates the allowed characters but was accepted" % (rows,),
+                                 args=dict(rows=rows)))
+        except errors.InterfaceError:
+            pass
     # field rows: format x length shape x example x empty mark x type -- only ever accepted or refused with an
     # InterfaceError naming the row; under the fixed format only one exact positive length is admissible
     lengths = ["", "3", "...5", "3...", "2...4", "2, 4", "0", "3...3", " 3 ", "0x3"]
